@@ -409,6 +409,8 @@ def make_acceptable(row, rng):
       r["compression_rank"] = rng.choice([1, 2])
     r["statistics_compute_steps"] = r["preconditioning_compute_steps"]
     r["reuse_preconditioner"] = True
+  if r["compression_rank"] != 0 and rng.below(2):
+    r["block_size"] = 8     # otherwise most compressed rows end in "all layers are too small"
   return r
 
 
@@ -436,6 +438,17 @@ def rand_tree(rng, sharded=False, big=False):
     return {"k": "dict", "keys": [], "ch": []}
   if kind == "bare":
     return leaf()
+  if big:
+    first = leaf()
+    if not any(d >= 6 for d in first["shape"]):
+      first = L(*(first["shape"][:2] + [rng.choice([6, 8, 9, 12])]))
+    rest = [leaf() for _ in range(n - 1)]
+    if kind == "dict":
+      return {"k": "dict", "keys": list("abcd"[:n]), "ch": [first] + rest}
+    if kind in ("list", "tuple"):
+      return {"k": kind, "ch": [first] + rest}
+    return {"k": "dict", "keys": ["a", "b"],
+            "ch": [first, {"k": "tuple" if sharded else "list", "ch": rest or [leaf()]}]}
   if kind == "dict":
     return {"k": "dict", "keys": list("abcd"[:n]), "ch": [leaf() for _ in range(n)]}
   if kind in ("list", "tuple"):
@@ -796,7 +809,7 @@ def run(ctx):
       "Distributed Shampoo: every option value on a base configuration x base trees, plus a greedy "
       "pairwise covering array over the full option list (32 options incl. execution mode "
       "replicated/pmap/sharded(1,2 devices) and jax_enable_x64), 3/4 of the rows repaired to satisfy "
-      "the FD constraints, x random parameter trees (dict/list/tuple/nested/empty/bare array, rank "
+      "the FD constraints (and, for half of the compressed rows, block_size 8 with one dimension >= 6 so that compression really applies), x random parameter trees (dict/list/tuple/nested/empty/bare array, rank "
       "0-4, unit dims); SM3; Tearfree (grafting x Shampoo/Sketchy x momentum options incl. invalid "
       "values, and the second-order transforms alone on raw shapes).  Every case: init + 3 updates. "
       "A case is distinct by (optimizer, configuration, tree) and non-trivial when the optimizer "
